@@ -701,6 +701,11 @@ class PathEnumerator:
             if self._collector_loop(s, st):
                 return [(st, N)]
             it = ev.expr(s.iter, st.env)
+            if it[0] == "ref" and it[1].startswith("typelib."):
+                # ... also when the display has been given a name at module level (`for name in _ERASED: ...`)
+                flat = flatten_display(self.prog, it)
+                if flat is not None and 1 <= len(flat) <= 6 and all(x[0] == "const" for x in flat):
+                    it = ("tuple", tuple(flat))
             if it[0] in ("tuple", "list") and 1 <= len(it[1]) <= 6 and not any(x[0] == "star" for x in it[1]):
                 # a loop over a short display written in place (a table of rows scanned in order) is unrolled exactly
                 out = []
@@ -975,7 +980,7 @@ def _is_generator(fi: FuncInfo) -> bool:
     return any(isinstance(n, (ast.Yield, ast.YieldFrom)) for n in ast.walk(fi.node))
 
 
-def splice_helpers(prog: Program, paths: list[Path], _depth: int = 0, cls=None) -> list[Path]:
+def splice_helpers(prog: Program, paths: list[Path], _depth: int = 0, cls=None, only=None) -> list[Path]:
     """Paths with calls to private, undecorated, multi-statement module-level helpers of the package replaced by the
     helper's own paths: the helper's events (parameters bound to the arguments) precede the caller's, and the call term
     is replaced by the value the helper returns.  Moving a block of statements into such a helper is then invisible to
@@ -1055,7 +1060,7 @@ def splice_helpers(prog: Program, paths: list[Path], _depth: int = 0, cls=None) 
                 continue
             evs = [e for e in evs if not (e[0] == "guard" and e[1][0] == "const")]
             out.append(Path(evs, exit_, dict(p.env)))
-    return splice_helpers(prog, out, _depth + 1, cls) if changed else out
+    return splice_helpers(prog, out, _depth + 1, cls, only) if changed else out
 
 
 _scache: dict = {}
